@@ -31,6 +31,8 @@ Proof.
   all: match goal with
        | Ec : in_int U32 (f32_of_int ?z) = false |- _ => pose proof (f32_of_int_range z) as R
        | Ec : in_int U64 (f64_of_int ?z) = false |- _ => pose proof (f64_of_int_range z) as R
+       | Ec : in_int U32 (f32_of_f64 ?z) = false |- _ => pose proof (f32_of_f64_range z) as R
+       | Ec : in_int U64 (f64_of_f32 ?z) = false |- _ => pose proof (f64_of_f32_range z) as R
        end.
   all: unfold in_int in Hw, Ec; cbn [int_min int_max] in Hw, Ec; change (2 ^ 64)%Z with 18446744073709551616%Z in R; change (2 ^ 32)%Z with 4294967296%Z in R; lia.
 Qed.
